@@ -1,5 +1,5 @@
 (* C01 — relayed byte streams arrive exactly once, in order, unmodified.
-   Statements only; proofs are in Net/ConnFacts.v, Net/HandlerFacts.v, Net/TunnelFacts.v.
+   Statements only; proofs are in Net/ConnFacts.v, Net/HandlerFacts.v, Net/TunnelFacts.v, Net/CauseFacts.v.
 
    Vocabulary (Net/Handler.v): one [event] = one handle_events(readables, writables) call of the real
    handler: it names the ready descriptors and the outcome of every recv()/send() made in that call
@@ -11,6 +11,7 @@
    after the exchange was established) has returned, in order (C01_histories_are_recv_results).
    [delivered_client s] = bytes the client socket has accepted, [pending_client s] = still buffered. *)
 From PM Require Import Lib.Bytes Net.Conn Net.ConnFacts Net.Handler Net.HandlerFacts Net.Tunnel Net.TunnelFacts.
+From PM Require Import Net.Cause Net.CauseFacts.
 From Coq Require Import ZArith.
 
 (* flush never loses, duplicates or reorders: what the socket has taken followed by what is still
@@ -136,4 +137,140 @@ Example C01_nonvacuous :
   has_buffer (work s) = true.
 Proof.
   vm_compute. repeat split; try reflexivity. eexists; reflexivity.
+Qed.
+
+
+(* ==========================================================================================================
+   A TEARDOWN NEEDS A CAUSE (vocabulary: Net/Cause.v; proofs: Net/CauseFacts.v).
+   The proxy never ends an exchange on its own.  [carries ev k] = the event (one handle_events call with the
+   outcome of every recv()/send() and request-oracle call in it) reports cause k, k one of
+     ClientSendFailed      client fd writable and send() raised BrokenPipeError / another OSError
+     UpstreamSendFailed    upstream fd writable and send() raised BrokenPipeError / another OSError
+     ClientRecvEnded       client fd readable and recv() returned b''/None, reset, timed out, other OSError
+     UpstreamRecvEnded     upstream fd readable and recv() returned b''/None, reset, ETIMEDOUT, other OSError
+     FirstRequestRejected  client data while the first request is incomplete and the request oracle rejects it
+                           (queues an error response / HttpProtocolException: bad request, auth, connect failure ...)
+     LaterRequestRejected  client data and plugin.on_client_data raised HttpProtocolException (pipelined request)
+   [applies s k] = the state in which that report can matter (buffer non-empty for the send failures, request
+   incomplete for the first, complete + not a tunnel / upgraded connection for the later rejection).
+   [armed s] = must_flush_before_shutdown or writes_teared or reads_teared is already set: an EARLIER call decided
+   the teardown and it only waits for the client buffer to drain (C07).
+   Bytes the upstream sends are in no cause: whatever the (bookkeeping) response parser makes of them — complete
+   response, interim 1xx, unparsable — handle_events does not return True because of them.  Seeded change
+   C01-r3-2 (teardown when the response parser of a non-keep-alive request reports completion) contradicts
+   C01_teardown_has_cause and shows up as a result mismatch in the correspondence.
+   ========================================================================================================== *)
+
+(* every state, every event: a True from handle_events has a cause in this call or was armed before it *)
+Theorem C01_teardown_has_cause : forall c ev s s',
+  handle_events c ev s = (s', Teardown) ->
+  armed s = true \/ exists k, carries ev k = true /\ applies s k.
+Proof. exact teardown_has_cause. Qed.
+Print Assumptions C01_teardown_has_cause.
+
+(* ... and so has every arming: the three flags are only ever set by a cause (whatever the call returns) *)
+Theorem C01_arming_has_cause : forall c ev s s' r,
+  handle_events c ev s = (s', r) -> armed s' = true ->
+  armed s = true \/ exists k, carries ev k = true /\ applies s k.
+Proof. exact armed_has_cause. Qed.
+Print Assumptions C01_arming_has_cause.
+
+(* an ESTABLISHED exchange (request forwarded / CONNECT acknowledged) on which nothing is armed: the list shrinks
+   to five causes — a first-request rejection is impossible — and to four for tunnels and upgraded connections,
+   whose client bytes are relayed without being looked at *)
+Theorem C01_teardown_has_cause_established : forall c ev s s',
+  established s -> req_complete s = true -> armed s = false ->
+  handle_events c ev s = (s', Teardown) ->
+  exists k, carries ev k = true /\ applies s k /\ k <> FirstRequestRejected /\
+            (k = LaterRequestRejected -> is_tunnel s = false /\ pipeline_upgrade s = false).
+Proof. exact teardown_has_cause_established. Qed.
+Print Assumptions C01_teardown_has_cause_established.
+
+(* (the second hypothesis holds in every established state reached from a fresh connection) *)
+Theorem C01_established_request_complete : forall c t0 evs s r,
+  run c (init t0) evs = (s, r) -> established s -> req_complete s = true.
+Proof. exact established_request_complete. Qed.
+Print Assumptions C01_established_request_complete.
+
+(* an exception escapes handle_events (Threadless: teardown WITHOUT flush) only if the event says that a request
+   oracle raised something unexpected, or upstream.recv() raised TimeoutError with errno != ETIMEDOUT (`raise e`) *)
+Theorem C01_exception_has_cause : forall c ev s s',
+  handle_events c ev s = (s', Raised) ->
+  (c_r ev && recv_has_data (c_recv ev) && (is_rraise (req ev) || is_draise (cdata ev))) ||
+  (u_r ev && is_timeout_other (u_recv ev)) = true.
+Proof. exact raise_has_cause. Qed.
+Print Assumptions C01_exception_has_cause.
+
+(* event lists: from a fresh connection, if no event reports a cause the exchange is never torn down, no teardown
+   is armed, and every byte the upstream handed over is at the client or buffered for it, in order (and for
+   tunnels every client byte is at the upstream or buffered for it) *)
+Theorem C01_no_cause_no_teardown : forall c t0 evs s r,
+  (forall ev k, In ev evs -> carries ev k = false) ->
+  run c (init t0) evs = (s, r) ->
+  r <> Teardown /\ armed s = false /\
+  (established s -> delivered_client s ++ pending_client s = ack_of c s ++ g_up_rcvd s) /\
+  (established s -> is_tunnel s = true -> delivered_upstream s ++ pending_upstream s = g_cl_rcvd s).
+Proof. exact no_cause_no_teardown_list. Qed.
+Print Assumptions C01_no_cause_no_teardown.
+
+(* ... and if moreover no event lets an exception escape, the loop simply goes on *)
+Theorem C01_no_cause_goes_on : forall c t0 evs s r,
+  (forall ev k, In ev evs -> carries ev k = false) -> (forall ev, In ev evs -> raises ev = false) ->
+  run c (init t0) evs = (s, r) ->
+  r = Continue /\ armed s = false /\
+  (established s -> delivered_client s ++ pending_client s = ack_of c s ++ g_up_rcvd s).
+Proof. exact no_cause_goes_on_list. Qed.
+Print Assumptions C01_no_cause_goes_on.
+
+(* meanwhile the proxy keeps reading: on an established exchange with nothing armed, a call without a cause in which
+   the upstream is reported readable and recv() returns a piece takes that piece (it enters g_up_rcvd, hence by
+   C01_relay_invariant_client the client's stream) and continues — unless an exception escapes BEFORE the upstream
+   is read (C01_exception_has_cause), in which case the piece stays in the kernel *)
+Theorem C01_no_cause_keeps_reading : forall c ev s s' r x raw,
+  established s -> req_complete s = true -> armed s = false ->
+  (forall k, carries ev k = false) ->
+  u_r ev = true -> u_recv ev = RData (x :: raw) ->
+  step c s ev = (s', r) -> r <> Raised ->
+  r = Continue /\ g_up_rcvd s' = g_up_rcvd s ++ x :: raw.
+Proof.
+  intros c ev s s' r x raw He Hrc Ha Hq. apply quiet_step_reads_upstream; auto. now apply quiet_spec.
+Qed.
+Print Assumptions C01_no_cause_keeps_reading.
+
+(* the list is as small as the model allows: for each of the six causes there is a life of a connection (Net/Cause.v:
+   witness) that ends in a teardown although that cause is the only one any of its events reports; for the five
+   causes other than the first-request rejection the exchange is established when it happens *)
+Theorem C01_every_cause_needed : forall k, exists s,
+  run w_cfg (init 0) (witness k) = (s, Teardown) /\
+  (k <> FirstRequestRejected -> established s) /\
+  (forall ev k', In ev (witness k) -> carries ev k' = true -> k' = k).
+Proof. exact every_cause_needed. Qed.
+Print Assumptions C01_every_cause_needed.
+
+(* ---- non-vacuity, the scenario of seeded change C01-r3-2: an HTTP/1.0 (non-keep-alive) request is forwarded, the
+   upstream answers with an interim "100 Continue" in its own segment, the client drains it, then the final response
+   arrives.  No event reports a cause or an exception; the exchange is still running, nothing is armed, and the
+   client's stream is interim ++ final. *)
+Definition cause_ex_events : list event :=
+  [ mkEvent 1 true false false false WouldBlock WouldBlock (RData (bs "POST http://h/u HTTP/1.0")) (RData [])
+            (RProxy false (bs "POST /u HTTP/1.0") []) DNothing;
+    mkEvent 2 false false false true WouldBlock (Accept 100) (RData []) (RData []) RIncomplete DNothing;
+    mkEvent 3 false false true false WouldBlock WouldBlock (RData []) (RData (bs "HTTP/1.1 100 Continue")) RIncomplete DNothing;
+    mkEvent 4 false true false false (Accept 100) WouldBlock (RData []) (RData []) RIncomplete DNothing;
+    mkEvent 5 false true true false (Accept 2) WouldBlock (RData []) (RData (bs "HTTP/1.1 201 Created")) RIncomplete DNothing ].
+Example C01_cause_nonvacuous :
+  (forall ev k, In ev cause_ex_events -> carries ev k = false) /\
+  (forall ev, In ev cause_ex_events -> raises ev = false) /\
+  let '(s, r) := run ex_cfg (init 0) cause_ex_events in
+  r = Continue /\ established s /\ req_complete s = true /\ armed s = false /\
+  g_up_rcvd s = bs "HTTP/1.1 100 Continue" ++ bs "HTTP/1.1 201 Created" /\
+  delivered_client s ++ pending_client s = g_up_rcvd s /\
+  has_buffer (work s) = true.
+Proof.
+  split; [|split].
+  - intros ev k Hin. cbn [cause_ex_events In] in Hin.
+    repeat (destruct Hin as [<-|Hin]; [destruct k; reflexivity|]). contradiction.
+  - intros ev Hin. cbn [cause_ex_events In] in Hin.
+    repeat (destruct Hin as [<-|Hin]; [reflexivity|]). contradiction.
+  - vm_compute. repeat split; try reflexivity. eexists; reflexivity.
 Qed.
